@@ -1,15 +1,51 @@
 from checkdef import part
+# colvarparse::check_keywords(std::string &, char const *) is wrapped at link time so the harness can copy
+# colvarparse::allowed_keywords (private; read with -fno-access-control) before the library clears it.
 _WRAP = "-Wl,--wrap=_ZN11colvarparse14check_keywordsERNSt7__cxx1112basic_stringIcSt11char_traitsIcESaIcEEEPKc"
 SPEC = {
     "level": "fault_enumeration",
     "parts": [part("c10_params", "asan", ["c10_params.cpp"], ldflags=_WRAP,
                    timeout={"quick": 1500, "thorough": 7200})],
-    "rule": "TODO",
-    "assumptions": [],
+    "rule": "corpus = every loadable tests/input_files/*/test.in plus the harness's feature-rich configurations "
+            "(harness/c10_extras.h), all checked to load and run cleanly; the keyword registry of every object type "
+            "(module, colvar, each component type, atom group, fitting group, each bias type, grid) is harvested from "
+            "colvarparse::allowed_keywords when check_keywords() is called; every (block, keyword) of every configuration "
+            "x value class {0, -1, 1, 10^6, 2^63-1, 1e300, nan, inf, empty, non-existent name, list one element too "
+            "long/short, keyword removed, lower/upper boundaries swapped, atom ranges 3-1/0-2/1-10^6/2-2} (thorough: "
+            "+ {-1e300, -inf, 2^31, 0.5, 1e-300, -10^6}) is substituted, the configuration parsed, 4 steps run, the state "
+            "written to a string, output files written, the run ended and the module destroyed, in a forked child under "
+            "ASan+UBSan with CPU-time, resident-memory and single-allocation caps; keywords that only become readable "
+            "under a mutated value are enumerated on top of that mutation (one closure level); thorough: all pairs of "
+            "divisor/size keywords of a configuration x {0,-1,10^6}^2; then every rejected configuration B is submitted "
+            "between two steps of a valid configuration A and the run compared bit for bit with the run without B, and a "
+            "further valid configuration C must be accepted. De-duplication: quick = once per (object type, keyword, value "
+            "class), module/colvar keywords additionally once per set of bias types for {0,-1,10^6,nan}, keywords shared "
+            "by >10 object types in 3 of them; thorough = once per (chain of object types, keys present in the block, "
+            "set of bias types, keyword, main value class). A case is non-trivial when the library read the mutated "
+            "keyword (not rejected as 'not recognized in this context'); distinct by (configuration, block, keyword, value class).",
+    "assumptions": [
+        "finite alphabet of boundary values; nothing is claimed for values outside it",
+        "the engine simulator reports a non-existent atom number with an error and returns COLVARS_INPUT_ERROR from "
+        "init_atom() without creating a slot (what the NAMD/LAMMPS/stub interfaces intend; their literal code registers "
+        "atom id 4 instead because COLVARS_INPUT_ERROR is positive)",
+        "Lepton, libtorch, volumetric maps, replicas, accelerated MD and name-based atom selection are absent from the "
+        "engine simulator: their keywords are reached through the error path only",
+        "a hang is a child that uses 2 s and then 40 s of CPU time without ending (10^6-valued cases: 400 s, thorough tier only)",
+        "UBSan's abort on the first undefined operation hides what would follow it in that case",
+    ],
 }
 META = {
-  "text": "TODO",
+  "text": "Fault enumeration over configuration values: every keyword of every object type (harvested from the library's own "
+          "keyword registry at run time) crossed with a fixed alphabet of boundary values, each case executed on the real "
+          "library (parse, steps, state and output writing, shutdown) in a forked child under ASan+UBSan with CPU, memory "
+          "and allocation caps; the oracle is the way the child ends (normal return with OK or error bits vs signal, "
+          "sanitizer report, uncaught exception, hang, memory cap). A second oracle replays [valid A, step, rejected B, "
+          "step, valid C, step] against the same run without B and demands bit-identical values, energies, forces and "
+          "state of every surviving object. The space is enumerated completely; nothing is sampled.",
   "design_ref": "DESIGN.md section 3, C10",
-  "note": "TODO",
-  "technique": "TODO",
+  "note": "Trusted: the sanitizers' reports, the harness's own configuration-tree parser/emitter, the engine simulator "
+          "(vproxy subclass). Findings are grouped per crash site (end kind + library function) and named after the "
+          "simplest keyword/value that reaches it; all other triggers are listed in the replay detail. Integer "
+          "division by zero is reported by UBSan in this build and named SIGFPE (what an uninstrumented build gets).",
+  "technique": "bounded-exhaustive enumeration of keyword x boundary-value substitutions with crash/hang/sanitizer oracle in forked children, plus reject-then-continue sequence comparison",
 }
